@@ -489,7 +489,8 @@ impl Run {
                         self.lines.push(json!({"a":"GC","h":h,"parent":p,"res":"none","ver":0,"body":"-","parent_ok":true}));
                     }
                     Err(e) => {
-                        self.lines.push(json!({"a":"GC","h":h,"parent":p,"res":"error","ver":0,"body":"-","parent_ok":true,"msg":format!("{e:#}")}));
+                        self.lines.push(json!({"a":"GC","h":h,"parent":p,"res":"error","ver":0,"body":"-","parent_ok":true,"msg":format!("{e:#}"),
+                            "faulted":format!("{e:#}").contains("injected")}));
                         self.handles.insert(h.clone(), None);
                     }
                 }
@@ -537,7 +538,8 @@ impl Run {
                     }
                     Ok(None) => self.lines.push(json!({"a":"GS","h":h,"res":"nosnap","ver":0,"body":"-"})),
                     Err(e) => {
-                        self.lines.push(json!({"a":"GS","h":h,"res":"error","ver":0,"body":"-","msg":format!("{e:#}")}));
+                        self.lines.push(json!({"a":"GS","h":h,"res":"error","ver":0,"body":"-","msg":format!("{e:#}"),
+                            "faulted":format!("{e:#}").contains("injected")}));
                         self.handles.insert(h.clone(), None);
                     }
                 }
@@ -755,7 +757,8 @@ async fn run_behaviour(b: &Value, dir: &Path, git: Option<PathBuf>) -> Vec<Value
                     break;
                 }
                 Err(e) => {
-                    run.lines.push(json!({"a":"GC","h":"walker","parent":p,"res":"error","ver":0,"body":"-","parent_ok":true,"msg":format!("{e:#}")}));
+                    run.lines.push(json!({"a":"GC","h":"walker","parent":p,"res":"error","ver":0,"body":"-","parent_ok":true,"msg":format!("{e:#}"),
+                        "faulted":format!("{e:#}").contains("injected")}));
                     break;
                 }
             }
